@@ -10,11 +10,12 @@ EXTENDS Naturals, Integers, Sequences, FiniteSets, TLC, Json, IOUtils
 Traces == JsonDeserialize(IOEnv.TRACE_FILE)
 
 C == INSTANCE Controllers WITH
-       MaxStepsSet <- {}, PatienceSet <- {}, MaxLen <- 0, MaxResets <- 0, KeepHist <- FALSE,
+       MaxStepsSet <- {}, PatienceSet <- {}, MaxLen <- 0, MaxResets <- 0, KeepHist <- FALSE, WithSnap <- FALSE, saved <- 0,
        c <- 0, steps <- 0, pc <- 0, cont <- TRUE, hist <- <<>>, n <- 0, resets <- 0, loop <- "idle"
 
 VARIABLES tid, l, st, verdict
-\* st = [steps, pc, cont, last, inloop]; last = <<>> stands for +infinity (ReduceToBason)
+\* st = [steps, pc, cont, last, inloop, snap]; last = <<>> stands for +infinity (ReduceToBason);
+\* snap = the controller state captured by the last "save" event (state_dict())
 
 Pow2(k) == IF k = 0 THEN 1 ELSE 2 ^ k
 
@@ -43,6 +44,10 @@ Expected(cfg, s, e) ==
             inloop |-> (e.act = "loopstart_reset")]
     [] e.act = "ostep" ->   \* opaque step: the loss was not logged, TLC infers the abstract event
            [steps |-> s.steps + 1, pc |-> e.pc, cont |-> e.cont, last |-> s.last, inloop |-> s.inloop]
+    [] e.act = "save" -> s                        \* state_dict(): no effect on the controller
+    [] e.act = "restore" ->                       \* a NEW controller object .load_state_dict(snapshot)
+           [steps |-> s.snap.steps, pc |-> s.snap.pc, cont |-> s.snap.cont, last |-> s.snap.last,
+            inloop |-> FALSE]
     [] e.act = "loopstart" -> [s EXCEPT !.inloop = TRUE]
     [] e.act = "loopexit"  -> [s EXCEPT !.inloop = FALSE]
 
@@ -63,12 +68,14 @@ Clause(cfg, s, e) ==
 
 Logged(cfg, s, e) ==
   LET x == Expected(cfg, s, e) IN
-  [steps |-> e.steps, pc |-> e.pc, cont |-> e.cont, last |-> x.last, inloop |-> x.inloop]
+  [steps |-> e.steps, pc |-> e.pc, cont |-> e.cont, last |-> x.last, inloop |-> x.inloop,
+   snap |-> IF e.act = "save" THEN [steps |-> e.steps, pc |-> e.pc, cont |-> e.cont, last |-> s.last] ELSE s.snap]
 
 Init ==
   /\ tid \in 1..Len(Traces)
   /\ l = 1
-  /\ st = [steps |-> 0, pc |-> 0, cont |-> TRUE, last |-> <<>>, inloop |-> FALSE]
+  /\ st = [steps |-> 0, pc |-> 0, cont |-> TRUE, last |-> <<>>, inloop |-> FALSE,
+           snap |-> [steps |-> 0, pc |-> 0, cont |-> TRUE, last |-> <<>>]]
   /\ verdict = "ok"
 
 Next ==
@@ -85,5 +92,5 @@ Spec == Init /\ [][Next]_<<tid, l, st, verdict>>
 
 \* design properties re-evaluated along every recorded execution
 StaysStoppedOnTrace ==
-  [][(~st.cont /\ st'.cont) => Traces[tid].ev[l].act \in {"reset", "loopstart_reset"}]_<<tid, l, st, verdict>>
+  [][(~st.cont /\ st'.cont) => Traces[tid].ev[l].act \in {"reset", "loopstart_reset", "restore"}]_<<tid, l, st, verdict>>
 ================================================================================
